@@ -688,6 +688,13 @@ func genScen(r *rng.R, i int, stream string, thorough bool) (Scen, bool) {
 	if s.Regime >= 3 {
 		s.Opts.Jitter = 4000
 	}
+	if s.Regime%3 != 2 && i%2 == 1 {
+		// below the require height the element store is in use: forks that move siafunds and contracts, so that
+		// reorgs revert and re-apply every kind of element (a store-level mistake surfaces as a failed reorg:
+		// honest peer banned, node stalled)
+		s.Opts.Kinds = v1Heavy
+		s.Opts.TxPerBlock = 2 + r.Intn(2)
+	}
 	n := 2 + r.Intn(3)
 	if thorough && r.Chance(1, 4) {
 		n = 5
@@ -798,6 +805,10 @@ func genPull(r *rng.R, i int) Scen {
 	s.Opts = chaingen.GenOpts{Blocks: 5 + r.Intn(14), Branchiness: 2 + r.Intn(3), TxPerBlock: r.Intn(3)}
 	if s.Regime >= 3 && r.Bool() {
 		s.Opts.Jitter = 4000
+	}
+	if s.Regime%3 != 2 && i%3 == 1 {
+		s.Opts.Kinds = v1Heavy
+		s.Opts.TxPerBlock = 2 + r.Intn(2)
 	}
 	if i%7 == 6 {
 		// a long, mostly linear tree: history spacing beyond the first ten entries
@@ -1007,6 +1018,35 @@ func run(c *hx.Ctx) {
 	res.WriteCases("Run.Run_C12", cases)
 }
 
+// transaction kinds of the v1 element store (siafund spends first: every branch spends the same genesis outputs)
+var v1Heavy = []string{"v1-siafund", "v1-siafund", "v1-transfer", "v1-form", "v1-revise", "v1-proof", "v1-revise-window"}
+
+// forkShape: a trunk of `trunk` blocks, then fork X of lx blocks and fork Y of ly blocks on the trunk tip.
+// Returns the shape and the node indices of the trunk tip and the two fork tips.
+func forkShape(trunk, lx, ly int) (shape []int, tt, tx, ty int) {
+	for k := 0; k < trunk; k++ {
+		shape = append(shape, k)
+	}
+	tt = trunk
+	for k := 0; k < lx; k++ {
+		if k == 0 {
+			shape = append(shape, tt)
+		} else {
+			shape = append(shape, trunk+k)
+		}
+	}
+	tx = trunk + lx
+	for k := 0; k < ly; k++ {
+		if k == 0 {
+			shape = append(shape, tt)
+		} else {
+			shape = append(shape, tx+k)
+		}
+	}
+	ty = tx + ly
+	return
+}
+
 // corpus: hand-picked shapes, run first. A line a-b-c in which the far node is exactly one
 // block behind once the middle node has caught up by syncing (only a header is relayed then):
 // linear chains in the v1-only, overlap and v2-only regimes, and the same with two blocks.
@@ -1076,6 +1116,29 @@ func corpus() []Scen {
 			s.Edges = [][2]int{{1, 0}, {2, 1}}
 		}
 		out = append(out, s)
+	}
+	// deep forks above the require height whose fork point lies strictly between two entries of the history sample
+	// (own fork longer than 10 blocks and not 11, 15, 23, 39 ...): the attach point is below the fork point, so the
+	// pre-validated batch starts with blocks the node already has on its best chain and continues with the fork.
+	for k, l := range []int{12, 13, 14, 24, 25, 26} {
+		trunk := 6
+		if l > 20 {
+			trunk = 18
+		}
+		shape, _, tx, ty := forkShape(trunk, l, l+2)
+		regime := []int{2, 5}[k%2]
+		out = append(out, Scen{Kind: "pull", Stream: "exact", Seed: uint64(8500 + k), Regime: regime, Opts: chaingen.GenOpts{Shape: shape}, Tips: []int{tx, ty}, Batch: []uint64{100, 0, 5}[k%3]})
+		if k%2 == 0 {
+			out = append(out, Scen{Kind: "net", Stream: "exact", Seed: uint64(8600 + k), Regime: regime, Announce: true, Opts: chaingen.GenOpts{Shape: shape}, Tips: []int{tx, ty}, Edges: [][2]int{{k % 4 / 2, 1 - k%4/2}}, Batch: 100})
+		}
+	}
+	// forks below the require height that both spend the same siafund outputs (and more): the reorg reverts one
+	// spend and applies the other
+	for k, regime := range []int{0, 3, 1} {
+		shape, _, tx, ty := forkShape(1, 3, 5)
+		o := chaingen.GenOpts{Shape: shape, Kinds: []string{"v1-siafund", "v1-siafund", "v1-transfer"}, TxPerBlock: 3}
+		out = append(out, Scen{Kind: "net", Stream: "exact", Seed: uint64(8700 + k), Regime: regime, Announce: true, Opts: o, Tips: []int{tx, ty, tx}, Edges: [][2]int{{0, 1}, {1, 2}}, Batch: 100})
+		out = append(out, Scen{Kind: "pull", Stream: "exact", Seed: uint64(8750 + k), Regime: regime, Opts: o, Tips: []int{tx, ty}})
 	}
 	return out
 }
